@@ -68,16 +68,28 @@ pub fn build_struct_from_template(
     Ok(struct_def)
 }
 
-/// Check if a type is the given struct or an array of the given struct
-fn is_struct_by_value(type_id: ir::TypeId, struct_id: ir::StructId, module: &ir::Module) -> bool {
-    let mut current = type_id;
-    loop {
-        match module.type_registry.get_type_layer(current) {
-            ir::TypeLayer::Struct(id) => return id == struct_id,
-            ir::TypeLayer::Array(inner, _) => current = inner,
-            ir::TypeLayer::Modifier(_, inner) => current = inner,
-            _ => return false,
+/// Check if a value of the type contains a value of the given struct
+fn contains_struct_by_value(
+    type_id: ir::TypeId,
+    struct_id: ir::StructId,
+    module: &ir::Module,
+) -> bool {
+    match module.type_registry.get_type_layer(type_id) {
+        ir::TypeLayer::Struct(id) => {
+            if id == struct_id {
+                return true;
+            }
+            // Structs made from templates may have been given the struct as a type argument
+            for member in &module.struct_registry[id.0 as usize].members {
+                if contains_struct_by_value(member.type_id, struct_id, module) {
+                    return true;
+                }
+            }
+            false
         }
+        ir::TypeLayer::Array(inner, _) => contains_struct_by_value(inner, struct_id, module),
+        ir::TypeLayer::Modifier(_, inner) => contains_struct_by_value(inner, struct_id, module),
+        _ => false,
     }
 }
 
@@ -193,7 +205,7 @@ fn parse_struct_internal(
                     )?;
 
                     // The struct is not complete until the end of its definition so can not contain itself
-                    if is_struct_by_value(type_id, id, &context.module) {
+                    if contains_struct_by_value(type_id, id, &context.module) {
                         return Err(TyperError::VariableHasIncompleteType(
                             type_id,
                             ast_member.ty.location,
